@@ -33,6 +33,7 @@ CONSTANTS
   MainScript,   \* script of the main thread (thread 0)
   HProg,        \* function: waker id -> [wake |-> actions, final |-> actions] run by its handler on the main
                 \* thread, inside poll_wake (<<"drop", w>>, <<"wake", w>>, <<"poll">>); wakers not in its domain just log
+  CEcho,        \* channel cases: the Fwd target answers every message below 1000 through the same channel
   OrdSet,       \* ordering passed by BitMap::set's fetch_or   ("SeqCst", "AcqRel", "Release", "Acquire", "Relaxed")
   OrdDrain      \* ordering passed by Leaf::drain's swap
 
@@ -152,6 +153,9 @@ AfterSet(x, t) ==
          ProcessRv(Emit(MUnlock([MUnlock(x, t, "DL") EXCEPT !.cq = << >>, !.th[0].pc = "inpoll"], t, "CH"), t, [e |-> "guard_drop_end"]))
     [] r = "lsend" ->
          NextOp(Emit(x, t, [e |-> "lsend_end", v |-> x.th[t].v, res |-> ~x.th[t].flag]), t)
+    [] r = "hsend" ->  \* the echo's wake is done: push under the lock, unlock, back to the forwarding loop
+         [Emit(MUnlock([x EXCEPT !.cq = Append(@, x.th[0].v)], 0, "CH"), 0,
+               [e |-> "send_end", v |-> x.th[0].v, res |-> TRUE]) EXCEPT !.th[0].pc = "fwding"]
     [] r = "hdrop" ->  \* Waker dropped by a handler: the handler's program goes on
          RunHActs(Emit(MUnlock([x EXCEPT !.th[0].pc = "inpoll"], 0, "DL"), 0, [e |-> "wdrop_end", w |-> x.th[0].w]))
     [] r = "hwake" ->
@@ -387,6 +391,12 @@ Locked(x, t) ==
               ELSE NextOp(Emit(MUnlock([x EXCEPT !.cq = Append(@, x.th[t].v)], t, "CH"), t,
                                [e |-> "send_end", v |-> x.th[t].v, res |-> TRUE]), t)
          ELSE NextOp(Emit(MUnlock(x, t, "CH"), t, [e |-> "send_end", v |-> x.th[t].v, res |-> FALSE]), t)
+    [] r = "hsend" ->
+         IF x.copen
+         THEN IF x.cq = << >> THEN StartSet([x EXCEPT !.th[t].w = ChanW], t, ChanBit, "hsend")
+              ELSE [Emit(MUnlock([x EXCEPT !.cq = Append(@, x.th[t].v)], t, "CH"), t,
+                         [e |-> "send_end", v |-> x.th[t].v, res |-> TRUE]) EXCEPT !.th[0].pc = "fwding"]
+         ELSE [Emit(MUnlock(x, t, "CH"), t, [e |-> "send_end", v |-> x.th[t].v, res |-> FALSE]) EXCEPT !.th[0].pc = "fwding"]
     [] r = "isclosed" ->
          NextOp(Emit(MUnlock(x, t, "CH"), t, [e |-> "isclosed", res |-> ~x.copen]), t)
     [] r = "gdrop" ->
@@ -418,7 +428,12 @@ Locked(x, t) ==
 FwdNext(x) ==
   IF x.fq = << >>
   THEN IF x.th[0].flag THEN ProcessDel(x, x.th[0].hq) ELSE ProcessRv(x)
-  ELSE [Emit([x EXCEPT !.fq = Tail(@)], 0, Head(x.fq)) EXCEPT !.th[0].pc = "fwding"]
+  ELSE LET ev == Head(x.fq)
+           x1 == Emit([x EXCEPT !.fq = Tail(@)], 0, ev)
+       IN IF CEcho /\ Kind = "channel" /\ ev.e = "fwd" /\ ev.v < 1000
+          THEN \* Channel::send from the main thread, inside the forwarding loop (the buffer lock is free there)
+               [Emit(x1, 0, [e |-> "send_begin", v |-> ev.v + 1000]) EXCEPT !.th[0].v = ev.v + 1000, !.th[0].pc = "lock_ch", !.th[0].ret = "hsend"]
+          ELSE [x1 EXCEPT !.th[0].pc = "fwding"]
 
 \* the channel / piped handler body once it holds its lock (main thread)
 HandlerLocked(x) ==
